@@ -32,12 +32,15 @@ ArrA == <<3, 1, 2>>
 ArrE == <<>>
 ArrW == <<2, 5>>
 ArrD == <<2, 4, 4, 3>>          \* (a repeated value: the set functions)
+MatX == <<<<1, 2>>, <<3, 4>>>>   \* written [[1, 2], [3.0, 4.0]]: rows of different element kinds
+NodesH == <<"P1", "P2">>         \* a graph without edges
 MatM == <<<<1, 2>>, <<3, 4>>>>
 Nodes == <<"N1", "N2", "N3">>
 Edges == <<[u |-> "N1", v |-> "N2", w |-> 2], [u |-> "N1", v |-> "N3", w |-> 1], [u |-> "N2", v |-> "N3", w |-> 3]>>
 ArrOf(nm) == CASE nm = "A1" -> ArrA [] nm = "E0" -> ArrE [] nm = "W2" -> ArrW [] nm = "D4" -> ArrD
 DataText == "    let A1 = [3, 1, 2]\n    let E0 = []\n    let W2 = [2, 5]\n    let D4 = [2, 4, 4, 3]\n    let M2 = [[1, 2], [3, 4]]\n" \o
-            "    let G = Graph {\n        N1 -> [N2: 2, N3: 1],\n        N2 -> [N3: 3],\n        N3\n    }"
+            "    let G = Graph {\n        N1 -> [N2: 2, N3: 1],\n        N2 -> [N3: 3],\n        N3\n    }\n" \o
+            "    let X2 = [[1, 2], [3.0, 4.0]]\n    let H = Graph { P1, P2 }"
 
 \* ---- binders -------------------------------------------------------------------
 \* [k, v (name), v2, v3, lo, hi, arr]
@@ -51,6 +54,8 @@ ElemsOf(v, r) == [k |-> "elems", v |-> v, of |-> r]
 NodesB(v) == [k |-> "nodes", v |-> v]
 Edges2(u, v) == [k |-> "edges2", v |-> u, v2 |-> v]
 Edges3(u, v, w) == [k |-> "edges3", v |-> u, v2 |-> v, v3 |-> w]
+NodesHB(v) == [k |-> "nodesH", v |-> v]
+EdgesHB(u, v) == [k |-> "edgesH", v |-> u, v2 |-> v]
 Neigh(v, of) == [k |-> "neigh", v |-> v, of |-> of]                                  \* (_, v) in neigh_edges(of)
 Zip(a, b, arr1, arr2) == [k |-> "zip", v |-> a, v2 |-> b, arr |-> arr1, arr2 |-> arr2]
 SetOp(v, fn, arr1, arr2) == [k |-> "setop", v |-> v, fn |-> fn, arr |-> arr1, arr2 |-> arr2]
@@ -68,6 +73,8 @@ BinderText(b) ==
      [] b.k = "nodes" -> b.v \o " in nodes(G)"
      [] b.k = "edges2" -> "(" \o b.v \o ", " \o b.v2 \o ") in edges(G)"
      [] b.k = "edges3" -> "(" \o b.v \o ", " \o b.v2 \o ", " \o b.v3 \o ") in edges(G)"
+     [] b.k = "nodesH" -> b.v \o " in nodes(H)"
+     [] b.k = "edgesH" -> "(" \o b.v \o ", " \o b.v2 \o ") in edges(H)"
      [] b.k = "neigh" -> "(_, " \o b.v \o ") in neigh_edges(" \o b.of \o ")"
      [] b.k = "zip" -> "(" \o b.v \o ", " \o b.v2 \o ") in zip(" \o b.arr \o ", " \o b.arr2 \o ")"
      [] b.k = "setop" -> b.v \o " in " \o b.fn \o "(" \o b.arr \o ", " \o b.arr2 \o ")"
@@ -102,6 +109,8 @@ Bind(b, env) ==
      [] b.k = "nodes" -> [j \in 1..Len(Nodes) |-> env @@ (b.v :> NodeB(Nodes[j]))]
      [] b.k = "edges2" -> [j \in 1..Len(Edges) |-> env @@ (b.v :> NodeB(Edges[j].u)) @@ (b.v2 :> NodeB(Edges[j].v))]
      [] b.k = "edges3" -> [j \in 1..Len(Edges) |-> env @@ (b.v :> NodeB(Edges[j].u)) @@ (b.v2 :> NodeB(Edges[j].v)) @@ (b.v3 :> NumB(Edges[j].w))]
+     [] b.k = "nodesH" -> [j \in 1..Len(NodesH) |-> env @@ (b.v :> NodeB(NodesH[j]))]
+     [] b.k = "edgesH" -> <<>>
      [] b.k = "neigh" -> LET es == OutEdges(env[b.of].s) IN [j \in 1..Len(es) |-> env @@ (b.v :> NodeB(es[j].v))]
      [] b.k = "zip" -> [j \in 1..MinOf(Len(ArrOf(b.arr)), Len(ArrOf(b.arr2))) |-> env @@ (b.v :> NumB(ArrOf(b.arr)[j])) @@ (b.v2 :> NumB(ArrOf(b.arr2)[j]))]
      [] b.k = "setop" -> LET q == SetVal(b.fn, ArrOf(b.arr), ArrOf(b.arr2)) IN [j \in 1..Len(q) |-> env @@ (b.v :> NumB(q[j]))]
@@ -122,8 +131,10 @@ IdxText(ix, env) == IF ix.off = 0 THEN env[ix.v].s ELSE ToString(env[ix.v].n + i
 Term(base, ixs, coef) == [base |-> base, ixs |-> ixs, coef |-> coef]
 CoefText(c) == CASE c.k = "one" -> "" [] c.k = "lit" -> ToString(c.n) \o " * " [] c.k = "val" -> c.v \o " * "
                  [] c.k = "acc" -> c.arr \o "[" \o c.v \o "] * "
+                 [] c.k = "acc2" -> "X2[" \o c.v \o "][" \o c.v2 \o "] * "
 FactorText(c) == CASE c.k = "lit" -> ToString(c.n) [] c.k = "val" -> c.v [] c.k = "acc" -> c.arr \o "[" \o c.v \o "]"
-CoefVal(c, env) == CASE c.k = "one" -> 1 [] c.k = "lit" -> c.n [] c.k = "val" -> env[c.v].n [] c.k = "acc" -> ArrOf(c.arr)[env[c.v].n + 1]
+                   [] c.k = "acc2" -> "X2[" \o c.v \o "][" \o c.v2 \o "]"
+CoefVal(c, env) == CASE c.k = "one" -> 1 [] c.k = "lit" -> c.n [] c.k = "val" -> env[c.v].n [] c.k = "acc" -> ArrOf(c.arr)[env[c.v].n + 1] [] c.k = "acc2" -> MatX[env[c.v].n + 1][env[c.v2].n + 1]
 TermText(t) == CoefText(t.coef) \o t.base \o JoinS([i \in 1..Len(t.ixs) |-> IxText(t.ixs[i])], 1, "")
 \* concrete term: [c |-> coefficient, name |-> flattened variable name]
 NameOf(t, env) == t.base \o JoinS([i \in 1..Len(t.ixs) |-> "_" \o IdxText(t.ixs[i], env)], 1, "")
@@ -192,18 +203,21 @@ Meaningful(r) == r.agg \in {"none", "sum", "prod"} \cup Logic \/ 0 \notin InnerC
 DeclProg == "    x_i as Boolean for i in 0..6\n" \o
             "    y_i_j as IntegerRange(0, 3) for i in 0..6, j in 0..6\n" \o
             "    z_u as NonNegativeReal(0, 9) for u in nodes(G)\n" \o
-            "    f_u_v as Real(-2, 4) for (u, v) in edges(G)"
+            "    f_u_v as Real(-2, 4) for (u, v) in edges(G)\n" \o
+            "    h_u as Boolean for u in nodes(H)"
 DeclUnrolled ==
    "    " \o JoinS([i \in 1..6 |-> "x_" \o ToString(i - 1)], 1, ", ") \o " as Boolean\n" \o
    "    " \o JoinS(Flat([i \in 1..6 |-> [j \in 1..6 |-> "y_" \o ToString(i - 1) \o "_" \o ToString(j - 1)]], 1), 1, ", ") \o " as IntegerRange(0, 3)\n" \o
    "    z_N1, z_N2, z_N3 as NonNegativeReal(0, 9)\n" \o
-   "    f_N1_N2, f_N1_N3, f_N2_N3 as Real(-2, 4)"
+   "    f_N1_N2, f_N1_N3, f_N2_N3 as Real(-2, 4)\n" \o
+   "    h_P1, h_P2 as Boolean"
 
 \* ---- the families of rows --------------------------------------------------------
 One == [k |-> "one"]
 Lit(n) == [k |-> "lit", n |-> n]
 Val(v) == [k |-> "val", v |-> v]
 Acc(arr, v) == [k |-> "acc", arr |-> arr, v |-> v]
+Acc2(v, v2) == [k |-> "acc2", v |-> v, v2 |-> v2]
 Row(agg, inner, term, extra, cmp, rhs, named, nameix, for) ==
    [agg |-> agg, inner |-> inner, term |-> term, extra |-> extra, cmp |-> cmp, rhs |-> rhs, named |-> named, nameix |-> nameix, for |-> for, style |-> "block", more |-> <<>>]
 Chain(r) == [r EXCEPT !.style = "chain"]
@@ -264,14 +278,23 @@ RowsScope == {WithMore(Row("sum", <<b1>>, Term("x", <<Ix(b1.v, 0)>>, One), <<>>,
                        <<[inner |-> <<b2>>, term |-> Term("x", <<Ix(b2.v, 0)>>, Val(b2.v))]>>)
                : b1 \in ScopeBinders, b2 \in ScopeBinders, fr \in {<<>>, <<Rng("i", 4, 6)>>, <<Rng("k", 4, 6)>>}}
              \cup {Row("sum", <<b1, b2>>, Term("x", <<Ix(b2.v, 0)>>, One), <<>>, "le", 3, FALSE, "i", <<>>) : b1 \in ScopeBinders, b2 \in ScopeBinders}
+\* a matrix whose rows differ in element kind, read element by element; a graph without edges
+RowsMixed == {Row(a, <<Rng("i", 0, 2), Rng("j", 0, 2)>>, Term("y", <<Ix("i", 0), Ix("j", 0)>>, Acc2("i", "j")), <<>>, c, 9, FALSE, "i", <<>>)
+                : a \in {"sum", "max"}, c \in {"le", "ge"}}
+             \cup {Row("none", <<>>, Term("y", <<Ix("i", 0), Ix("j", 0)>>, Acc2("i", "j")), <<>>, "le", 6, n, "i", <<Rng("i", 0, 2), Rng("j", 1, 2)>>) : n \in BOOLEAN}
+             \cup {Row("sum", <<Rng("j", 0, 2)>>, Term("y", <<Ix("i", 0), Ix("j", 0)>>, Acc2("i", "j")), <<>>, "le", 6, n, "i", <<RngI("i", 1, 1)>>) : n \in BOOLEAN}
+             \cup {Row(a, <<NodesHB("u")>>, Term("h", <<Ix("u", 0)>>, One), <<>>, c, 1, FALSE, "u", <<>>) : a \in {"sum", "any"}, c \in {"le", "ge"}}
+             \cup {Row("none", <<>>, Term("h", <<Ix("u", 0)>>, One), <<>>, "le", 1, n, "u", <<NodesHB("u")>>) : n \in BOOLEAN}
+             \cup {Row("sum", <<EdgesHB("u", "v")>>, Term("h", <<Ix("u", 0)>>, One), <<Term("h", <<Ix("w", 0)>>, One)>>, "le", 1, FALSE, "w", <<NodesHB("w")>>)}
 RowSet == CASE Family = "prod" -> RowsProd
+            [] Family = "mixed" -> RowsMixed
             [] Family = "scope" -> RowsScope
             [] Family = "logic" -> RowsLogic
             [] Family = "sets" -> RowsSets \cup RowsNeigh
             [] Family = "one" -> RowsFor1 \cup RowsSum1
             [] Family = "enum" -> RowsEnum \cup RowsTwo
             [] Family = "graph" -> RowsGraph
-            [] OTHER -> RowsFor1 \cup RowsSum1 \cup RowsEnum \cup RowsTwo \cup RowsGraph \cup RowsProd \cup RowsLogic \cup RowsSets \cup RowsNeigh
+            [] OTHER -> RowsFor1 \cup RowsSum1 \cup RowsEnum \cup RowsTwo \cup RowsGraph \cup RowsProd \cup RowsLogic \cup RowsSets \cup RowsNeigh \cup RowsMixed
 
 \* ---- the machine -----------------------------------------------------------------
 \* a program = an objective row template (aggregated) + up to MaxRows row templates
